@@ -369,6 +369,19 @@ func ruleZeroSumSign(w *World, r *RuleResult) {
 					zeroG = true
 				}
 			}
+			// equivalent form: the constant true stored where the operand's sign was additionally found false
+			if k, isK := st.Val.(*ssa.Const); isK && k.Value != nil && boolConst(k) && floorG && zeroG {
+				for _, gd := range guardsAt(st.Block()) {
+					if gd.Val {
+						continue
+					}
+					for l := range w.valueAndControlLeaves(g, gd.Cond) {
+						if strings.HasSuffix(l, ".Negative") {
+							ok = true
+						}
+					}
+				}
+			}
 			// the stored sign is the complement of the operand's sign
 			if u, isU := st.Val.(*ssa.UnOp); isU && u.Op == token.NOT && floorG && zeroG {
 				for l := range w.valueAndControlLeaves(g, u.X) {
